@@ -5,6 +5,7 @@ import warnings
 from typing import Literal, get_args
 
 import dags
+import numpy
 import pandas as pd
 
 from _gettsim.config import (
@@ -296,6 +297,24 @@ def _convert_data_to_correct_types(data, functions_overridden):
 
             except ValueError as e:
                 collected_errors.append(f" - {column_name}: {e}")
+        elif internal_type in (int, float) and series.dtype != numpy.dtype(internal_type):
+            # Same kind, but another width (e.g. int8, uint16, float32). The policy
+            # functions compute with these values (e.g. `hh_id * 100`), which would
+            # overflow or lose precision in the narrow type.
+            converted = series.astype(internal_type)
+            if (
+                numpy.can_cast(series.dtype, converted.dtype, casting="safe")
+                or (converted == series).all()
+            ):
+                data[column_name] = converted
+                collected_conversions.append(
+                    f" - {column_name} from {series.dtype} to {converted.dtype}"
+                )
+            else:
+                collected_errors.append(
+                    f" - {column_name}: Conversion from input type {series.dtype} to "
+                    f"{internal_type.__name__} failed. It cannot be done losslessly."
+                )
 
     # If any error occured raise Error
     if len(collected_errors) > 1:
